@@ -4,6 +4,7 @@ import Heph.Model.CondType
 import Heph.Model.GenVar
 import Heph.Model.GenFuncRef
 import Heph.Model.GenNew
+import Heph.Model.GenMatch
 /-! ops of the C01 family.
   `check.wt` {program export + "bt": {"any","void","boolean","char","string","integer": index into tt,
   "builtins": [indices]}} → {"r": "ok" | {"path": [...], "reason": tag, "detail": text},
@@ -100,6 +101,46 @@ def handle : Handler := fun op j =>
         let compat := fs.all fun (a, m) => sigtypeCompatible [] a et m true false .whole == .yes
         pure (Json.mkObj [("ok", Json.bool ok), ("cands", ofStrList (cands.map (·.name))),
           ("compat", Json.bool compat)]))
+  | "check.classdecls" => some (do
+      -- calls: {"etype", "void", "sub", "sig", "self", "classes": [{"name", "attrs": [attr + "has_t"]}],
+      --         "maps": [map …], "out": [[class name, attr name, map] …]}
+      --  → {"ok": the recorded list is the model's list (names and maps by value, in order), "n": its length}
+      let tbl ← parseTable j
+      let extra ← parsePairs j "extra"
+      batch j fun c => do
+        let classes ← (← getArr c "classes").toList.mapM fun x => do
+          let attrs ← (← getArr x "attrs").toList.mapM fun a => do
+            let has ← getBool a "has_t"
+            if has then pure (true, ← parseAttr tbl a)
+            else pure (false, ({ name := ← getStr a "name", ty := .nothing, params := [], fnCon := .nothing } : AttrSig))
+          pure (← getStr x "name", attrs)
+        let parseM (m : Json) : Except String Ty.TMap := parseTMap tbl (Json.mkObj [("m", m)]) "m"
+        let maps ← (← getArr c "maps").toList.mapM fun m => do
+          if m.isNull then pure none else pure (some (← parseM m))
+        let out ← (← getArr c "out").toList.mapM fun o => do
+          let p ← o.getArr?
+          if p.size != 3 then throw "triple expected"
+          pure (← p[0]!.getStr?, ← p[1]!.getStr?, ← parseM p[2]!)
+        let mapEq (a b : Ty.TMap) : Bool :=
+          a.length == b.length && (a.zip b).all fun (x, y) => structEq x.1 y.1 && structEq x.2 y.2
+        let r := matchingClassDecls extra (← tyAt tbl c "void") (← tyAt tbl c "etype") (← getBool c "sub")
+          (← getBool c "sig") (← getStr c "self") classes maps
+        match r with
+        | none => pure (Json.mkObj [("ok", Json.bool false), ("n", Json.str "maps ran out")])
+        | some l =>
+            let ok := l.length == out.length && (l.zip out).all fun ((cn, a, m), (cn', an', m')) =>
+              cn == cn' && a.name == an' && mapEq m m'
+            pure (Json.mkObj [("ok", Json.bool ok), ("n", Json.num (JsonNumber.fromNat l.length)),
+              ("names", Json.arr (l.map fun (cn, a, _) => Json.arr #[Json.str cn, Json.str a.name]).toArray)]))
+  | "check.firstcompat" => some (do
+      -- calls: {"attrs": [attr], "etype", "m", "sig", "out": attr name | null} → {"ok", "model": name | null}
+      let tbl ← parseTable j
+      batch j fun c => do
+        let attrs ← (← getArr c "attrs").toList.mapM (parseAttr tbl)
+        let r := firstCompatible attrs (← tyAt tbl c "etype") (← parseTMap tbl c "m") (← getBool c "sig")
+        let out := ((c.getObjValD "out").getStr?).toOption
+        pure (Json.mkObj [("ok", Json.bool (r.map (·.name) == out)),
+          ("model", match r with | some a => Json.str a.name | none => Json.null)]))
   | "check.subclass" => some (do
       -- calls: {"etype", "ename", "sub", "classes": [{"name","regular","parameterized","t"}], "out": name | null}
       --  → {"ok": the outcome refines `subclassCandidates`, "cands"}
